@@ -502,6 +502,11 @@ impl Allocator {
             } else {
                 self.nil()
             },
+            if metadata.not_exported {
+                docs![self, self.line(), "| not_exported"]
+            } else {
+                self.nil()
+            },
             match &metadata.priority {
                 MergePriority::Bottom => docs![self, self.line(), "| default"],
                 MergePriority::Neutral => self.nil(),
